@@ -4,7 +4,8 @@ M/R: GEN_Ast.tla enumerates abstract syntax trees: kind (program / library modul
      instruction forms (every instruction with every immediate form, lib/masm_table.py) x nesting shape, and every
      combination of boundary values of the length-prefixed fields of the encoding (doc comments 0 / 1 / 65000,
      procedure names 1 / 40 / 255, import paths 10 / 255 / 256 / 700 / 1023, locals 0 / 1 / 3 / 65535, repeat counts,
-     number of procedures, re-exports).  Each is rendered to Miden assembly and put through the real code:
+     number of procedures, re-exports), and bodies whose number of direct child nodes is 1 / 127 / 128 / 255 / 256 / 32767 /
+     32768 / 40000 / 65535 as main body, procedure body and body of a nested block.  Each is rendered to Miden assembly and put through the real code:
      parse -> to_bytes -> from_bytes must give an equal AST that re-encodes to the same bytes (with imports and without),
      source locations written separately and reloaded must restore equality, compiling the round-tripped AST must give
      the same MAST root, kernel and execution outcome as compiling the original, the library file holding the imported
@@ -15,6 +16,19 @@ M/R: GEN_Ast.tla enumerates abstract syntax trees: kind (program / library modul
 import json, os, random, re
 from lib.common import *
 from lib import ast_render, masm_table
+
+
+def render_big(c):
+    """a body of c["count"] direct child nodes (plain instructions) in the place c["place"]"""
+    nodes = " ".join(["neg"] * c["count"])
+    wrapped = {"main": nodes, "proc": "exec.f", "repeat": "repeat.2 %s end" % nodes, "if": "push.1 if.true %s end" % nodes,
+               "else": "push.0 if.true neg else %s end" % nodes, "while": "push.1 while.true %s push.0 end" % (" ".join(["neg"] * (c["count"] - 1)))}[c["place"]]
+    pre = "proc.f %s end\n" % nodes if c["place"] == "proc" else ""
+    if c["kind"] == "program":
+        src = pre + "begin %s end\n" % wrapped
+    else:
+        src = pre + "export.g %s end\n" % wrapped
+    return {"kind": c["kind"], "src": src, "lib": None, "kernel": None}
 
 
 def run(tier, replay=None):
@@ -49,10 +63,19 @@ def run(tier, replay=None):
             keep += rng.sample(lst, min(6, len(lst)))
         keep += rng.sample(b, 200)
         scs = keep
+    # (C) bodies with a number of direct child nodes at the boundaries of the node-count encodings
+    if not replay:
+        big = [c for b in json_prints(r, "astbig") for c in b["cases"]]
+        if not thorough:
+            big = [c for c in big if c["count"] in (1, 255, 256, 32767, 32768, 65535) and (c["kind"] == "program" or c["place"] in ("main", "proc", "repeat"))]
+        if len(big) < 50:
+            raise ToolError("GEN_Ast printed only %d large-body cases" % len(big))
+        for c in big:
+            scs.append(dict(c, big=True, docs=0, proc_docs=0, name_len=1, path_len=0, locals=0))
     inp = os.path.join(wd, "ast_scenarios.ndjson")
     with open(inp, "w") as f:
         for s in scs:
-            f.write(json.dumps(ast_render.render(s)) + "\n")
+            f.write(json.dumps(render_big(s) if s.get("big") else ast_render.render(s)) + "\n")
     stats = {}
     for prof in ("release", "checked"):
         outp = os.path.join(wd, "ast_%s.out" % prof)
